@@ -81,6 +81,11 @@ def apply(seq, op):
         seq.set_channel(a["c"])
     elif name == "scale":
         seq.scale(a["k"], quantise_afterwards=a["q"])
+    elif name == "scale_down":
+        meta = {"none": None, "self": seq}.get(a["meta"])
+        if a["meta"] == "other":
+            meta = build.sequence(a["other"])
+        seq.scale(a["k"], meta_sequence=meta, quantise_afterwards=a["q"])
     elif name == "transpose":
         return seq.transpose(a["n"])
     elif name == "quantise":
@@ -191,6 +196,8 @@ def op_strategy(names):
         "set_channel": st.fixed_dictionaries({"c": st.integers(0, 2)}),
         "scale": st.fixed_dictionaries({"k": st.integers(1, 3), "q": st.sampled_from([False, False, True])}),
         "transpose": st.fixed_dictionaries({"n": st.sampled_from([0, 1, -1, 12, 50, -50, 7])}),
+        "scale_down": st.fixed_dictionaries({"k": st.sampled_from([0.5, 0.5, 0.25]), "meta": st.sampled_from(["none", "self", "other"]),
+                                             "other": small_seqspec(), "q": st.sampled_from([False, False, True])}),
         "quantise": st.fixed_dictionaries({"steps": st.lists(st.sampled_from([2, 3, 4, 6, 8, 12]), min_size=1, max_size=2)}),
         "qnl": st.fixed_dictionaries({"vals": st.lists(st.sampled_from([2, 4, 6, 12, 24]), min_size=1, max_size=3),
                                       "dne": st.booleans()}),
@@ -208,6 +215,6 @@ def op_strategy(names):
 
 ALL_OPS = ["add_abs", "add_rel", "concatenate", "merge", "cutoff", "normalise", "ow_abs", "ow_rel", "pad", "set_channel", "scale",
            "transpose", "quantise", "qnl", "qan", "it_abs", "it_rel", "read_abs", "read_rel", "refresh", "inval_abs", "inval_rel",
-           "copy", "getters", "refresh", "it_abs", "it_rel", "read_abs", "read_rel"]
+           "copy", "getters", "refresh", "it_abs", "it_rel", "read_abs", "read_rel", "scale_down"]
 MUTATOR_OPS = ["add_abs", "add_rel", "concatenate", "merge", "cutoff", "normalise", "pad", "set_channel", "scale", "transpose",
                "quantise", "qnl", "it_abs", "it_rel", "transpose", "set_channel", "scale", "it_abs", "it_rel"]
